@@ -19,6 +19,8 @@ type entity = rd.ErrorResponse
 
 type errorResponse = rd.ErrorResponse
 
+type emptyRecord = rd.EmptyRecord
+
 // the fields of an error response besides status and message, as two classes: all unset (0) or set (1)
 func setRest(e *errorResponse, rest int) {
 	if rest == 1 {
